@@ -34,5 +34,33 @@ for dp, dn, fns in os.walk(src):
                 names += [f"{st.name}.{m.name}" for m in st.body if isinstance(m, (ast.FunctionDef, ast.AsyncFunctionDef))]
                 data_names(st.body, f"={st.name}.")
         out[mod] = sorted(set(names))
+# body signatures of methods / functions, insensitive to the names of the module's own functions: lets the loader
+# recognise a function that was merely renamed
+sys.path.insert(0, V)
+from sa.inline import body_signature  # noqa: E402
+
+sigs = {}
+for dp, dn, fns in os.walk(src):
+    dn[:] = sorted(d for d in dn if d != "__pycache__")
+    for fn in sorted(fns):
+        if not fn.endswith(".py") or fn == "core_defs.py":
+            continue
+        p = os.path.join(dp, fn)
+        rel = os.path.relpath(p, src)[:-3].replace(os.sep, ".")
+        if rel.endswith("__init__"):
+            rel = rel[:-len("__init__")].rstrip(".")
+        mod = "pyrtma" + ("." + rel if rel else "")
+        t = ast.parse(open(p, encoding="utf-8").read())
+        fnames = set(n.split(".")[-1] for n in out[mod] if not n.startswith("="))
+        d = {}
+        for st in t.body:
+            if isinstance(st, ast.FunctionDef):
+                d[st.name] = body_signature(st, fnames)
+            elif isinstance(st, ast.ClassDef):
+                for m in st.body:
+                    if isinstance(m, ast.FunctionDef):
+                        d[f"{st.name}.{m.name}"] = body_signature(m, fnames)
+        sigs[mod] = d
+out["#signatures"] = sigs
 json.dump(out, open(os.path.join(V, "sa", "known_functions.json"), "w"), indent=0, sort_keys=True)
-print(sum(len(v) for v in out.values()), "functions in", len(out), "modules")
+print(sum(len(v) for k, v in out.items() if not k.startswith("#")), "names in", len(out) - 1, "modules")
